@@ -1279,8 +1279,29 @@ reg(Spec(
               "histories (pool machine)"))
 
 
+def throw_runs(tier, seed):
+    """in-place operations interrupted by a throwing scalar type (drv_throw)"""
+    return [RunSpec("throw", None, "plain", q(tier, 4480, 224000)),
+            RunSpec("throw", None, "nochk", q(tier, 2240, 224000))]
+
+
+THROW_RULE = ("A scalar type whose own operations can fail (drv_throw: a "
+              "wrapper around double whose every arithmetic operation, copy "
+              "construction and copy assignment counts down while armed and "
+              "throws at the k-th one) interrupts += -= copy assignment, "
+              "cross-order assignment, assignment from a sum and from an "
+              "operator result, *= /= and the non-mutating operations (+ * "
+              "operator expression, forms, evaluation, linearCombination) at "
+              "k = 1, 2, ... until the call completes, for orders 0..3 x 0..3 "
+              "in the 12 placements: after every failed attempt target and "
+              "operands must be bit-identical (for *= and /= only validity is "
+              "judged - the basic guarantee) and valid; the completed call is "
+              "compared with the same operation on double splines. ")
+
+
 def c10_runs(tier, seed):
-    runs = [RunSpec("pool", "Q", "plain", q(tier, 320, 12000)),
+    runs = throw_runs(tier, seed) + [
+            RunSpec("pool", "Q", "plain", q(tier, 320, 12000)),
             RunSpec("pool", "d", "nochk", q(tier, 640, 40000)),
             RunSpec("validate", "f", "plain", q(tier, 1200, 40000),
                     params={"gridblocks": 100, "gridpercase": 64})]
@@ -1307,7 +1328,10 @@ reg(Spec(
          "operator new makes the 1st, 2nd, ... allocation inside the call throw "
          "std::bad_alloc in turn until the call completes; after every failed "
          "attempt all objects are walked (and, for C14, the target must be "
-         "bit-identical). " + POOL_NT,
+         "bit-identical); the same for the non-mutating operations (sum, "
+         "product, scalar multiple, operators, spline factor, "
+         "linearCombination, copy construction, forms). " + THROW_RULE +
+         POOL_NT,
     required=["c10:objects-walked", "c10:moved-from-checked",
               "step:move-construct", "step:move-assign", "step:self-assign",
               "step:self-move", "step:cross-order-assign",
@@ -1318,7 +1342,10 @@ reg(Spec(
               "grid-foreign:collapsing", "step:grid-migration",
               "alloc-fault:injected", "alloc-fault:completed",
               "alloc-fault:alloc-fault-copy-assign",
-              "alloc-fault:alloc-fault-cross-assign"],
+              "alloc-fault:alloc-fault-cross-assign",
+              "alloc-fault:pure-completed", "scalar-fault:injected",
+              "scalar-fault:cross-assign", "scalar-fault:copy-assign",
+              "scalar-fault:mul-assign", "scalar-fault:completed"],
     assumptions=["histories of 150 steps over 15+5 objects; orders 0..4 "
                  "(0..6 thorough)", "self-move-assignment is exercised except "
                  "under the checked-STL flavour, where libstdc++ itself "
@@ -1333,7 +1360,8 @@ def c14_runs(tier, seed):
     n = q(tier, 8000, 600000)
     return pool_runs(tier, seed, flavours=("nochk",)) + [
         RunSpec("eval", "Q", "plain", n), RunSpec("eval", "d", "plain", n),
-        RunSpec("pool", "d", "clang", q(tier, 320, 20000))] + (
+        RunSpec("pool", "d", "clang", q(tier, 320, 20000))] + throw_runs(
+            tier, seed) + (
         [RunSpec("pool", "d", "plain", 40000)] if tier == "thorough" else [])
 
 
@@ -1351,16 +1379,21 @@ reg(Spec(
          "midpoints in ascending and then in descending order, and the "
          "evaluation driver (see C02; one case in sixteen on a grid of 65..120 "
          "points) evaluates its abscissae as listed and then reversed; the "
-         "values must be bit-identical. " + POOL_NT,
+         "values must be bit-identical. Allocation failures are injected "
+         "into in-place and into non-mutating operations of the double "
+         "builds (see C10). " + THROW_RULE + POOL_NT,
     required=["c14:bystanders-compared", "c14:evaluations-repeated",
               "grid:large", "alloc-fault:injected",
+              "alloc-fault:pure-completed", "scalar-fault:target-compared",
+              "scalar-fault:add-assign", "scalar-fault:sub-assign",
+              "scalar-fault:assign-sum", "scalar-fault:completed",
               "alloc-fault:alloc-fault-add-assign", "step:fail-add-assign",
               "step:fail-sub-assign", "step:copy-construct",
               "step:copy-assign", "step:mul-assign", "step:add-assign"],
     assumptions=["histories of 150 steps; orders 0..4", "allocation failures "
-                 "are injected for built-in scalar types only: for a scalar "
-                 "type whose own arithmetic can throw, *= and /= can only give "
-                 "the basic guarantee, which is not judged"],
+                 "are injected for built-in scalar types only; for the scalar "
+                 "type whose own arithmetic throws, *= and /= can only give "
+                 "the basic guarantee: validity is judged, the value is not"],
     evaluations="c14:bystanders-compared",
     technique="runtime monitor: before/after deep snapshots of every live "
               "object around every step (frame condition checker)"))
